@@ -75,6 +75,21 @@ CHECKS = {
             'content introduced by the marker text, on basic and debug pages.',
             'negotiation is asserted only where the statement determines it (ties / parameterised / malformed ranges accept any consistent outcome); trusts html.parser, xml.etree, json',
             'DESIGN.md §4 C09'),
+    'C19': ('exploration',
+            'Hypothesis rule-based state machines: request/read/reset histories against a model Counter; add/resize/iterate histories over the sample store with invariants',
+            'Histories of requests over routes of every outcome kind interleaved with stats reads and resets are compared, after '
+            'every read/reset, with a model counter keyed by (pattern, status or exception name); a second machine drives the '
+            'sample store with adds far beyond capacity, resizes and reseeds and checks capacity bound, exact total count, '
+            'membership and never-raises after every step.',
+            'stats report read through the public JSON endpoint; reset request may be accounted to either epoch',
+            'DESIGN.md §4 C19'),
+    'C20': ('exploration',
+            'Hypothesis-generated error texts (real tracebacks produced in-process, syntax reports, hostile text, None/bytes) and file lists; html.parser validity predicate',
+            'create_app must construct and answer any path/method with 200; an HTML tokenizer must find no tag, attribute or '
+            'comment introduced by the input; for str input the unescaped character data must contain the text and every file '
+            'name; for standard tracebacks ending in "Type: message" one element must be exactly the type and one exactly the message.',
+            'tracebacks are produced by the running interpreter (3.12 caret lines included); paths under the page\'s own asset prefix are not requested',
+            'DESIGN.md §4 C20'),
 }
 
 PENDING_REASON = 'check not built yet in this session (planned, see DESIGN.md §4); not claimed until it runs quietly on the unchanged tree'
